@@ -188,7 +188,7 @@ def check_C02(ctx):
         ctx.model_must_hold(r, what='(limb-level cfdiv_q/tdiv_q/tdiv_r/cfdiv_r _2exp: shift, strip, rounding carry, two\'s complement remainder)')
     ctx.validate(ctx.run_driver(ctx.build('default'), 'corners_z', shards=16, extra='funs=mpz_tdiv_q:mpz_tdiv_r:mpz_fdiv_q:mpz_fdiv_r:mpz_cdiv_q:mpz_cdiv_r:mpz_mod:mpz_tdiv_qr:mpz_divexact', timeout=900))
     # the internal division kernels called directly, each against the contract its own source states (SemK2.tla)
-    trace_drivers(ctx, [('c02_tdiv', 16, 1200), ('c02_div1', 8, 600), ('c02_mpz', 16, 900), ('k2_sbdc', 8, 900), ('k2_inv', 8, 900), ('k2_bdiv', 8, 900), ('k2_div1', 8, 900), ('k2_divis', 2, 600), ('scalar_ext', 14, 600)],
+    trace_drivers(ctx, [('c02_tdiv', 16, 1200), ('c02_div1', 8, 600), ('c02_mpz', 16, 900), ('k2_sbdc', 8, 900), ('k2_dive2', 8, 900), ('k2_inv', 8, 900), ('k2_bdiv', 8, 900), ('k2_div1', 8, 900), ('k2_divis', 2, 600), ('scalar_ext', 14, 600)],
                   pure_drivers=['c02_tdiv', 'c02_div1', 'c02_mpz', 'k2_div1'])
     return ctx.finish('model_checking',
         rule='R2: UdivPreinv = every normalised two-limb divisor and every admissible three-limb numerator at word widths 3..5 bits; SbDivQr = every normalised '
@@ -560,7 +560,7 @@ def check_C19(ctx):
 CPU_VARIANTS = ['netburst', 'k8', 'k10', 'k102', 'bulldozer', 'piledriver', 'bobcat', 'core2', 'penryn', 'nehalem', 'westmere', 'sandybridge',
                 'ivybridge', 'haswell', 'haswellavx', 'broadwell', 'skylake', 'skylakeavx', 'atom']
 OPTION_VARIANTS = ['none', 'fat', 'assert', 'alloca-debug', 'alloca-reentrant']
-BATTERY = [('c01_pieces', 1), ('k1_mullow', 1), ('k1_mulmid', 1), ('k1_redc', 1), ('k1_mulmod', 1), ('k2_div1', 1), ('k2_sbdc', 1), ('k2_bdiv', 1), ('c14_kern', 2), ('k5_root', 1), ('k5_comb', 1), ('k5_prime', 1), ('c03_mpn', 2), ('c01_mul1', 1), ('c02_tdiv', 2), ('c02_div1', 1), ('c10_mpn', 1), ('c09_mpn', 1), ('c07_mpn', 1), ('c06_mpn', 1),
+BATTERY = [('c01_pieces', 1), ('k1_mullow', 1), ('k1_mulmid', 1), ('k1_redc', 1), ('k1_mulmod', 1), ('k2_div1', 1), ('k2_sbdc', 1), ('k2_dive2', 1), ('k2_bdiv', 1), ('c14_kern', 2), ('k5_root', 1), ('k5_comb', 1), ('k5_prime', 1), ('c03_mpn', 2), ('c01_mul1', 1), ('c02_tdiv', 2), ('c02_div1', 1), ('c10_mpn', 1), ('c09_mpn', 1), ('c07_mpn', 1), ('c06_mpn', 1),
            ('c01_mpz', 1), ('c02_mpz', 2), ('c07_mpz', 2), ('c08_powm', 2), ('hist', 2)]
 
 
